@@ -1259,6 +1259,34 @@ func (s *Sess) manyBigFrees() {
 		s.viol("leak", "seven big files created and freed together: %d blocks free before, %d after all background freeing has finished", free0, f)
 	}
 	s.res.Stats.Add("seven-big-frees-in-flight")
+	// an orderly shutdown with several background frees still running: it has
+	// to wait for all of them (no crash happens here, so nothing may be left
+	// half-freed on the disk the next instance starts from)
+	for i := 0; i < 3; i++ {
+		r := s.exec(&Op{K: OpCreate, H: root, Name: fmt.Sprintf("bigdown%d", i)})
+		if r.Stat != stOK {
+			return
+		}
+		for k := 0; k < 9+3*i; k++ {
+			s.nextUid++
+			n := uint32(64 * BlockSize)
+			s.exec(&Op{K: OpWrite, H: r.FH, Off: uint64(k) * uint64(n), Count: n, DataLen: n, Uid: s.nextUid, Stable: 0})
+		}
+	}
+	s.srv.WaitIdle()
+	s.srv.Flush()
+	for i := 0; i < 3; i++ {
+		s.exec(&Op{K: OpRemove, H: root, Name: fmt.Sprintf("bigdown%d", i)})
+	}
+	s.logOp(fmt.Sprintf("%d RESTART (clean, background frees in flight)", s.step))
+	s.srv = s.srv.Restart()
+	s.res.Restarts++
+	st = s.srv.N.VerifFsState()
+	if f := diskFreeBlocks(st); f != free0 || st.Balloc.NumFree() != free0 {
+		s.viol("leak", "three big files removed, then an orderly shutdown (no crash) and a restart: %d blocks were free before the files existed, now the bitmap on disk has %d free and the allocator %d (the shutdown did not wait for all background frees)", free0, f, st.Balloc.NumFree())
+	}
+	s.fullCheck("dump", "after an orderly shutdown with three background frees in flight")
+	s.res.Stats.Add("orderly-shutdown-with-frees-in-flight")
 }
 
 // fillDisk leaves only a handful of free blocks.
